@@ -15,7 +15,7 @@ REQUIRED += ["DaeVerif.C16.Props." + n for n in [
     "group_callbacks_are_edges", "random_policy_never_writes", "kernel_bit",
     "kernel_key_injective", "kernel_key_slots",
     "reload_snapshot_drops_counters", "reload_hands_over_state", "reload_floor_leaves_selectable",
-    "reload_leaves_every_group_selectable", "reload_old_order_leaves_group_empty", "kernel_callback_guards",
+    "reload_leaves_every_group_selectable", "handover_matches_per_group", "handover_unmatched_node_untouched", "reload_old_order_leaves_group_empty", "kernel_callback_guards",
 ]]
 
 PKG = "component/outbound/dialer"
@@ -110,13 +110,16 @@ def reload_oracle(kop_lines, kimpl_lines, report, max_reports=3):
             groups[g] = (w[3], 0 if w[5] == "-" else len(w[5].split(",")))
             if w[3] != "fixed":
                 order.append(g)
-        elif w[0] == "reload":
+        elif w[0] in ("reload", "handover"):
             m = re.search(r"L\[([^\]]*)\]", im)
             lens = [int(x) for x in m.group(1).split(",") if x] if m else []
             for tok in w[1:]:
                 if tok == "|":
                     break
-                g = int(tok.split("/")[0])
+                parts = tok.split("/")
+                if parts[0] == "o":
+                    continue
+                g = int(parts[1]) if parts[0] == "n" else int(parts[0])
                 pol, nm = groups.get(g, ("fixed", 0))
                 if pol == "fixed" or nm == 0:
                     continue
